@@ -2,7 +2,11 @@
 # run every registered check in the thorough tier, one after the other; prints one line per check
 cd "$(dirname "$0")/.."
 (cd harness && CARGO_NET_OFFLINE=true cargo build --offline --bins 2>&1 | tail -1)
-for c in $(python3 -c "import json;print(' '.join(x['property_id'] for x in json.load(open('MANIFEST.json'))['checks']))"); do
+# usage: run_thorough_all.sh [id ...]   (default: every check of the manifest)
+ids="$@"
+[ -z "$ids" ] && ids=$(python3 -c "import json;print(' '.join(x['property_id'] for x in json.load(open('MANIFEST.json'))['checks']))")
+# (do not apply seeded changes to /repo while this runs: the checks build from /repo's working tree)
+for c in $ids; do
   s=$(date +%s)
   timeout 5400 bin/check $c --tier thorough > work-thorough-$c.log 2>&1
   rc=$?
